@@ -480,6 +480,81 @@ func checkC10(c *Ctx) {
 			ok, why = false, "waitFor does not return the collector's aggregate"
 		}
 		R.Check(ok, "S7", "srv.(*Service).waitFor", p.Position(wf.Pos()), "Resolve is returned after wg.Wait (or under isFinished)", why)
+		// S7b: waitFor reaches wg.Wait only when a flag is set whose true-store follows every
+		// wg.Add of the once-body (otherwise the group can still be empty and Wait returns at once)
+		evs := linearise(onceLit, svcRole(onceLit))
+		lastAdd := -1
+		for i, e := range evs {
+			if e.Key == "wg.Add" {
+				lastAdd = i
+			}
+		}
+		safe := map[string]bool{"isFinished": true} // set by the run goroutine after everything else
+		for i, e := range evs {
+			if strings.HasPrefix(e.Key, "store:") && strings.HasSuffix(e.Key, "=true") && i > lastAdd {
+				safe[strings.TrimSuffix(strings.TrimPrefix(e.Key, "store:"), "=true")] = true
+			}
+		}
+		for i, e := range evs {
+			if strings.HasPrefix(e.Key, "store:") && strings.HasSuffix(e.Key, "=true") && i < lastAdd {
+				delete(safe, strings.TrimSuffix(strings.TrimPrefix(e.Key, "store:"), "=true"))
+			}
+		}
+		for _, e := range linearise(start, svcRole(start)) {
+			if strings.HasPrefix(e.Key, "store:") && strings.HasSuffix(e.Key, "=true") {
+				delete(safe, strings.TrimSuffix(strings.TrimPrefix(e.Key, "store:"), "=true"))
+			}
+		}
+		// the guards in front of wg.Wait: every if-with-return that dominates it
+		var guards []ast.Expr
+		walkNoLit(wf.Body, func(x ast.Node) bool {
+			if ifs, ok := x.(*ast.IfStmt); ok && waitCall != nil && blockAlwaysReturns(ifs.Body) && fl.Dominates(ifs.Cond, waitCall) && !p.inside(waitCall, ifs.Body) {
+				guards = append(guards, ifs.Cond)
+			}
+			return true
+		})
+		flags := []string{"flag:isRunning", "flag:isFinished", "flag:isStarted"}
+		bad := ""
+		for mask := 0; mask < 8 && waitCall != nil; mask++ {
+			as := map[string]bool{}
+			for i, fl := range flags {
+				as[fl] = mask&(1<<i) != 0
+			}
+			it := &interp{f: wf, atoms: as, errObjs: map[types.Object]bool{}, env: map[types.Object]any{}, used: map[string]bool{}}
+			proceeds, understood := true, true
+			for _, g := range guards {
+				v, ok := it.evalBool(g)
+				if !ok {
+					understood = false
+				}
+				if v {
+					proceeds = false
+				}
+			}
+			if !understood {
+				bad = "a guard in front of wg.Wait is not understood"
+				break
+			}
+			if proceeds {
+				okSafe := false
+				for fl := range safe {
+					if as["flag:"+fl] {
+						okSafe = true
+					}
+				}
+				if !okSafe {
+					var on []string
+					for _, fl := range flags {
+						if as[fl] {
+							on = append(on, strings.TrimPrefix(fl, "flag:"))
+						}
+					}
+					bad = fmt.Sprintf("with flags {%s} set waitFor proceeds to wg.Wait although no flag is set whose store follows the last wg.Add of Start (such flags: %v)", strings.Join(on, ","), keys(safe))
+				}
+			}
+		}
+		R.Check(bad == "" && waitCall != nil, "S7", "srv.(*Service).waitFor/started-guard", p.Position(wf.Pos()), fmt.Sprintf("wg.Wait is reached only when one of %v is set (stored after the last wg.Add)", keys(safe)),
+			bad+": a Wait that overlaps Start can find the group still empty, return at once and report a nil result while Run has not even begun")
 	} else {
 		R.Fail("S7", "srv.(*Service).waitFor", "-", "waitFor not found")
 	}
